@@ -32,7 +32,8 @@ def cases(rng, tier):
         yield straight(rng, n)
     k = 250 if tier == "quick" else 4000
     for i in range(k):
-        yield rvgen.sim_case(rng, "five", hazard=True, opts={"wide": i % 4 == 0}, trace=45, run=600, dprob=0.4, iprob=0.4, suite="sim-five")
+        c_ = rvgen.sim_case(rng, "five", hazard=True, opts={"wide": i % 4 == 0}, trace=45, run=600, dprob=0.4, iprob=0.4, suite="sim-five")
+        yield rvgen.as_text_case(c_) if i % 4 == 3 else c_        # every fourth program goes through the loader
     for prog, regs in rvgen.fault_schedule_programs():          # schedules around faults, drains and squashed instructions
         lines = rvgen.header("five", True, "-", "-", prog, regs, []) + ["sim.snap"]
         for _ in range(16):
@@ -117,7 +118,7 @@ def oracle(c):
     im = implmod.Impl()
     im.run(f"sim.new five 1 - -")
     for l in c.lines:
-        if l.split()[0] in ("sim.prog", "sim.reg", "sim.poke"):
+        if l.split()[0] in ("sim.prog", "sim.load", "sim.reg", "sim.poke"):
             im.run(l)
     got = []
     k = 0
